@@ -2061,6 +2061,10 @@ func (app *App) findBestStreamFrom(node *mysql.Node, clusterState map[string]*no
 		}
 
 		candidateState := clusterState[streamFrom]
+		if candidateState == nil {
+			app.logger.Error().Msgf("repair: stream_from %s of %s is not a registered node of the cluster. Fallback to master", streamFrom, host)
+			return master
+		}
 
 		// if cascade node is streaming now from configured host - do nothing
 		if len(loopDetector) == 1 {
